@@ -24,6 +24,12 @@ with vcheck.Lock():
     except subprocess.TimeoutExpired:
         rc = 124
     print("coq build rc=%d" % rc)
+    # the output of each property file compiled alone (Print Assumptions), cached for the checks
+    for cfg in cfgs:
+        if os.path.exists(os.path.join(vcheck.COQ, cfg["props_file"][:-2] + ".vo")):
+            rc1, _ = vcheck.solo_compile(cfg["props_file"], 1500)
+            if rc1 != 0:
+                failed.append("%s: %s does not compile alone" % (cfg["id"], cfg["props_file"]))
     # every claimed property must have its theorems and evaluator compiled
     for cfg in cfgs:
         for f in (cfg["props_file"][:-2] + ".vo", cfg.get("run_target")):
